@@ -95,7 +95,7 @@ Definition cmpop_tag (o : cmpop) : N :=
 
 Fixpoint pure_eqb (a b : pure) {struct a} : bool :=
   match a, b with
-  | PBv s w v, PBv s' w' v' => Bool.eqb s s' && N.eqb w w' && Z.eqb v v'
+  | PBv s w v, PBv s' w' v' => Bool.eqb s s' && N.eqb w w' && Z.eqb (wrap w v) (wrap w v')   (* same bitvector *)
   | PBool x, PBool y => Bool.eqb x y
   | PVarL x, PVarL y => String.eqb x y
   | PVarLP x, PVarLP y => String.eqb x y
